@@ -5,8 +5,29 @@ package actor
 // scheduling points of the product code it calls.
 
 import (
+	"sort"
+	"unsafe"
+
 	"github.com/tochemey/goakt/v4/internal/address"
 )
+
+// verifSortLocals orders per-worker rings by heap address. localQueue.stealHalf
+// locks two rings in address order (lockOrder); the rings are allocated one by
+// one, so which of two rings has the lower address varies between executions of
+// the same seed, and with it which lock a stealing worker blocks on. After the
+// sort, address order equals worker-index order in every execution. Only legal
+// while the rings are empty and no worker runs.
+func verifSortLocals(rq *readyQueue) {
+	l := rq.locals
+	sort.Slice(l, func(i, j int) bool { return uintptr(unsafe.Pointer(l[i])) < uintptr(unsafe.Pointer(l[j])) })
+}
+
+// VerifSortLocalQueues: call between NewActorSystem and Start (see verifSortLocals).
+func VerifSortLocalQueues(sys ActorSystem) {
+	if as, ok := sys.(*actorSystem); ok && as.dispatcher != nil && as.dispatcher.readyQueue != nil {
+		verifSortLocals(as.dispatcher.readyQueue)
+	}
+}
 
 // VerifDrainPools empties the package-level channel pools that may hold
 // objects owned by a finished synctest bubble.
